@@ -164,10 +164,13 @@ def _run_cases(job, specs, descs, mods, res, bump, mode, spans, bytes_mode, tag)
             break
         for ent in entries:
             ename, through = ent[0], ent[1]
+            eargs = tuple(ent[2]) if len(ent) > 2 else ()      # C.parse(*args)(text): parameterised class as entry
             mi = len(specs) - 1 if through is None else through
             mname = ename if ename is not None else specs[mi].start
             try:
                 parse = impl.entry(mods[mi], ename)
+                if eargs:
+                    parse = parse(*eargs)
             except AttributeError as x:
                 case = {'descs': descs, 'entry': list(ent), 'what': 'entry lookup'}
                 res['viol'].append({'sig': '%s ENTRY-MISSING' % tag, 'case': case,
@@ -179,7 +182,7 @@ def _run_cases(job, specs, descs, mods, res, bump, mode, spans, bytes_mode, tag)
                 # ---- model
                 before = counters.restores
                 try:
-                    r = model_for(mi).parse(mname, text, pos)
+                    r = model_for(mi).parse(mname, text, pos, args=eargs)
                 except IllFormed:
                     bump('skipped_illformed')
                     continue
